@@ -17,7 +17,7 @@ from .e3_engine import Env, Violation, world_from_json, world_to_json
 from .refmodel import World, realize, expected_dump, real_dump, diff_dumps
 
 PROP = "C10"
-RUNS = {"quick": 6000, "thorough": 120000}
+RUNS = {"quick": 12000, "thorough": 150000}
 WALL_CAP = {"quick": 300.0, "thorough": 3000.0}
 
 NAME_POOL = ["users", "orders", "items", "t_x", "acc", "posts", "m2m", "zeta", "table", "ref", "note"]
